@@ -70,7 +70,15 @@ class Preemptor:
         end = sim.now_us + self.hold_us
         saved_end, saved_depth = sim.t_end, sim.depth
         sim.t_end, sim.depth = end, 0
-        if self.during is not None and p == self.targets[0]:
+        if self.during is not None and p == self.targets[0] and "inject" in self.during[1]:
+            off, q = self.during            # a frame (e.g. a connection abort of the peer) received while the thread is held
+            f = q["inject"]
+
+            def feed():
+                sim.log({"ev": "ptx", "node": f["node"], "id": f["id"], "data": list(f["data"]), "fd": bool(f.get("fd", False)), "ext": True})
+                sim.inject(sim.node(f["node"]), f["id"], f["data"], fd=f.get("fd", False))
+            sim.after(off, feed)
+        elif self.during is not None and p == self.targets[0]:
             off, q = self.during
             qn = sim.node(q["node"])
             data = q["data"] if "data" in q else scen.payload(q["size"], q.get("salt", 0))
